@@ -39,3 +39,10 @@ class TupleHolder(State):
 
     pair: tuple[Any | Missing, int]
     tag: int = 0
+
+
+class SameOriginUnionHolder(State):
+    """the missing value is admitted by one of several alternatives of the same runtime type (two shapes of a tuple), not by the last one"""
+
+    pair: tuple[int, Any | Missing] | tuple[str, int] | tuple[str, str]
+    tag: int = 0
